@@ -216,20 +216,26 @@ Proof. vm_compute. reflexivity. Qed.
     circular) -- None, 0 (falsy!) or 1 -- the declared length n + [prepend is not None] +
     [append is not None] - 1 (n when circular) is the length snp.diff produces in _eval. *)
 Theorem C12_fd_len_declared_eq_actual : forall n p a circ,
-  1 <= n -> fd_args_ok p a circ = true -> fd_decl_len n p a circ = fd_eval_len n p a circ false.
+  1 <= n -> fd_args_ok p a circ = true -> fd_decl_len n p a circ = fd_eval_len n p a circ.
 Proof. exact fd_len_declared_eq_actual. Qed.
 Print Assumptions C12_fd_len_declared_eq_actual.
 
-(** SingleAxisFiniteDifference: for every shape with positive dimensions, every axis in
-    [-rank, rank) and every boundary setting, declared output shape = documented rule = shape
-    of the evaluation (an inadmissible setting is rejected by all three).  Axis < -rank:
-    Findings/C12_refuted.v. *)
+(** SingleAxisFiniteDifference: for every shape with positive dimensions, EVERY axis and every
+    boundary setting, declared output shape = documented rule = shape of the evaluation; axes
+    outside [-rank, rank) and inadmissible settings are rejected by all three. *)
 Theorem C12_fd_declared_eq_spec : forall s ax p a circ,
-  Forall (fun d => 1 <= d) s -> - Z.of_nat (length s) <= ax < Z.of_nat (length s) ->
+  Forall (fun d => 1 <= d) s ->
   safd_declared s ax p a circ = safd_spec s ax p a circ /\
   safd_declared s ax p a circ = safd_actual s ax p a circ.
 Proof. exact safd_declared_eq_spec_eq_actual. Qed.
 Print Assumptions C12_fd_declared_eq_spec.
+
+(** An axis outside [-rank, rank) is rejected at construction (the former finding
+    fd-negative-axis-range, repaired by fdc6426). *)
+Theorem C12_fd_axis_out_of_range_rejected : forall s ax p a circ,
+  ax < - Z.of_nat (length s) \/ Z.of_nat (length s) <= ax -> safd_declared s ax p a circ = None.
+Proof. exact safd_axis_out_of_range_rejected. Qed.
+Print Assumptions C12_fd_axis_out_of_range_rejected.
 
 (** FiniteDifference (vertical stack over the axes): declared element count = sum over the axes *)
 Theorem C12_fd_stack_size : forall s axes p a circ outs o,
@@ -249,7 +255,8 @@ Example C12_example_fd :
   safd_declared [6] 0 (Some 0) None false = Some [6] /\ safd_actual [6] 0 (Some 0) None false = Some [6]
   /\ fd_declared [3; 4] None None (Some 0) false = Some (Plain [2; 3; 4])
   /\ fd_declared [3; 4] None None None false = Some (Block [[2; 4]; [3; 3]])
-  /\ dft_declared [3; 4] None (Some [8]) = Some [3; 8] /\ dft_inv_shape [3; 4] [3; 8] None (Some [8]) = Some [3; 4].
+  /\ dft_declared [3; 4] None (Some [8]) = Some [3; 8] /\ dft_inv_shape [3; 4] [3; 8] None (Some [8]) = Some [3; 4]
+  /\ safd_declared [3; 4] (-3) None None false = None /\ fd_declared [3; 4] (Some [-3]) None None false = None.
 Proof. vm_compute. repeat split; reflexivity. Qed.
 
 Example C12_example_replicated_rejected :
